@@ -295,6 +295,9 @@ def classify(stmts, cond="HAlways"):
                 out.append("HFclose %s" % cond)
             else:
                 out.append('HOther %s "%s"' % (cond, t.replace('"', "'")[:60]))
+        elif kind == "if" and re.match(r"if\s*\(\s*old_(read_markers|reset_marker_reader)\s*\)$", norm(a)) and \
+                re.match(r"dinfo->marker->(read_markers|reset_marker_reader)\s*=\s*old_(read_markers|reset_marker_reader)\s*;?$", norm(b)):
+            out.append("HRestoreMarkerMethods %s" % cond)
         elif kind == "if":
             c, raw = cond_of(a)
             inner = split_stmts(b)
@@ -508,6 +511,13 @@ ab_body = func_body(jcomapi, "jpeg_abort") or sys.exit("jpeg_abort not found")
 ab = assigned(ab_body)
 if not re.search(r"free_pool\s*\)\s*\(\s*cinfo\s*,\s*pool\s*\)", ab_body):
     sys.exit("jpeg_abort no longer releases the non-permanent pools")
+rh_body = func_body(jdapimin, "jpeg_read_header") or sys.exit("jpeg_read_header not found")
+eoi = re.search(r"case\s+JPEG_REACHED_EOI\s*:(.*?)break\s*;", rh_body, re.S)
+if not eoi:
+    sys.exit("jpeg_read_header: case JPEG_REACHED_EOI not found")
+tables_only_aborts = bool(re.search(r"jpeg_abort\s*\(", eoi.group(1)))
+if not tables_only_aborts and not re.search(r"global_state\s*=\s*DSTATE_START", eoi.group(1)):
+    sys.exit("jpeg_read_header: the tables-only case neither aborts nor resets global_state")
 ci_body = func_body(jdapimin, "jpeg_consume_input") or sys.exit("jpeg_consume_input not found")
 if not re.search(r"case\s+DSTATE_START\s*:\s*\(\s*\*\s*cinfo->inputctl->reset_input_controller\s*\)\s*\(\s*cinfo\s*\)", ci_body):
     sys.exit("jpeg_consume_input: DSTATE_START no longer resets the input controller first")
@@ -692,6 +702,7 @@ Inductive hstmt :=
   | HRetval (c : hcond) (v : Z) | HGotoBailout (c : hcond) | HReturn (c : hcond)
   | HAbortC (c : hcond) | HAbortD (c : hcond) | HTermDest (c : hcond)
   | HFree (c : hcond) (what : string) | HDestroyTmp (c : hcond) | HFclose (c : hcond) | HWarnRet
+  | HRestoreMarkerMethods (c : hcond)
   | HOther (c : hcond) (text : string).
 Record apifn := { fn_name : string; fn_file : string; fn_uses_c : bool; fn_uses_d : bool; fn_tmp_instance : bool;
                   fn_handlers : list (list hstmt); fn_bailout : option (list hstmt); fn_throws : Z }.
@@ -759,5 +770,7 @@ print("(* free_pool subtracts the size of every freed large / small pool block f
 print("   realize_virt_arrays compares with max_memory_to_use) *)")
 print("Definition free_pool_subtracts_large : bool := %s." % str(fp_sub_large).lower())
 print("Definition free_pool_subtracts_small : bool := %s." % str(fp_sub_small).lower())
+print("(* jpeg_read_header: a tables-only datastream ends in jpeg_abort() (which also drops the saved markers) *)")
+print("Definition read_header_tables_only_aborts : bool := %s." % str(tables_only_aborts).lower())
 print("(* tj3Compress*: setCompDefaults is called before jpeg_mem_dest_tj *)")
 print("Definition compress_defaults_before_dest : bool := %s." % str(comp_defaults_before_dest).lower())
